@@ -376,7 +376,7 @@ class ProgGen:
             return ["%s%s %s %s;" % (pad, lv, op, self.expr(rhs_t, env, d))]
         if k < 0.48:
             lv, lt = self.lvalue(env)
-            if lv is None or lt.isflt or lt.bits == 1 or (lt.signed and lt.bits >= 32):
+            if lv is None or lt.isflt or (lt.signed and lt.bits >= 32):
                 return self.out_stmt(env, ind)
             self.feat("incdec")
             return ["%s%s%s;" % (pad, lv, r.choice(["++", "--"])) if r.random() < 0.5 else "%s%s%s;" % (pad, r.choice(["++", "--"]), lv)]
